@@ -67,6 +67,14 @@ def build_tree(rng, base):
         "uploads-private/secret.txt": b"PRIVATE\n",
         "outside/victim.txt": b"VICTIM\n",
         "outside/odir/inner.txt": b"INNER\n",
+        # files that merely LOOK like staging files of an upload: they belong to somebody and stay as they are
+        "uploads/existing.txt.tmp": b"SOMEBODY'S existing.txt.tmp\n",
+        "uploads/new.txt.tmp": b"SOMEBODY'S new.txt.tmp\n",
+        "uploads/sub/new.gmi.tmp": b"SOMEBODY'S new.gmi.tmp\n",
+        "uploads/sub/old.gmi.tmp": b"SOMEBODY'S old.gmi.tmp\n",
+        "uploads/.upload-0123456789abcdef.tmp": b"LEFT OVER from a crashed run\n",
+        "uploads/existing.txt~": b"BACKUP\n",
+        "uploads/.existing.txt.swp": b"SWAP\n",
     }
     for rel, data in files.items():
         with open(os.path.join(base, rel), "wb") as f:
